@@ -103,6 +103,39 @@ def check_proposal(kind, cfg_name, cfg, o, perm, alpha=1.3, seed=3):
     return {"case": "%s|%s|o=%s|perm=%s" % (kind, cfg_name, o, perm), "outcomes": len(totals), "problems": problems[:4]}
 
 
+def alpha_change_pass(kind, seed=3):
+    """C08 across a concentration change: the same kernel / distribution objects, proposals requested at alpha = 1, alpha changed in place,
+    the same proposals requested again WITHOUT clearing the proposal caches (library use): weights must still telescope"""
+    from phyclone.smc.swarm import Particle
+    from phyclone.smc.utils import RootPermutationDistribution
+
+    problems = []
+    data = T.make_data(4, dims=1, grid=4, seed=seed)
+    td = EK.make_tree_dist(1.0)
+    pd = RootPermutationDistribution()
+    ptree = T.build_tree(data, [[0], [1], [2]], (-1, -1, 0))
+    EK.clear_caches()
+    n = 0
+    for alpha in (1.0, 4.0, 0.3):
+        td.prior.alpha = alpha
+
+        def run(rng):
+            kernel = kernel_cls(kind)(td, rng, outlier_proposal_prob=0.0, perm_dist=pd)
+            pp = Particle(0, None, ptree.copy(), td, pd)
+            prop = kernel.get_proposal_distribution(data[3], pp, ptree.copy())
+            t = prop.sample()
+            lq = float(prop.log_p(t))
+            part = kernel.create_particle(lq, pp, t)
+            tree = part.tree
+            return T.tree_key(tree), lq, float(part.log_w), float(td.log_p(tree) + pd.log_pdf(tree) - td.log_p(ptree) - pd.log_pdf(ptree))
+
+        for prob, (key, lq, lw, dgamma), _ in explore(run):
+            n += 1
+            if abs((lw + lq) - dgamma) > 1e-8:
+                problems.append("%s after alpha -> %s (no cache clear): log_w + log_q = %.6g but gamma_t - gamma_(t-1) = %.6g at %s" % (kind, alpha, lw + lq, dgamma, T.key_str(key)))
+    return {"case": "%s|alpha-change" % kind, "outcomes": n, "problems": problems[:4]}
+
+
 def run_all(tier="quick"):
     cases = []
     max_roots = 3 if tier == "thorough" else 3
@@ -113,4 +146,5 @@ def run_all(tier="quick"):
                     continue  # a parent with outliers only arises with outlier proposals on
                 for perm in (False, True):
                     cases.append(check_proposal(kind, cfg_name, cfg, o, perm))
+        cases.append(alpha_change_pass(kind))
     return cases
